@@ -493,6 +493,8 @@ class OscScore():
         # Process time in seconds to store in the score and
         # support sub-bundles relative time like _build_bundle.
         # _check_subtime is done by _build_bundle before calling this method.
+        # Work on a copy: the caller's (nested) lists must not be altered.
+        bndl = bndl[:]
         for i, element in enumerate(bndl[1:], 1):
             if isinstance(element[0], (int, float, type(None))):
                 bndl[i] = self._process_bndl_time(send_time, element)
@@ -500,7 +502,6 @@ class OscScore():
                 raise ValueError(
                     'elements within bundles must be valid '
                     f'OSC messages or bundles: {element}')
-        bndl = bndl[:]
         bndl[0] = self._get_logical_time(send_time, bndl[0])
         return bndl
 
